@@ -86,6 +86,12 @@ theorem csv_round_trip (force : Nat → Nat → Bool) (rs : List (List Hpv.Csv.S
     Hpv.Csv.readAll (Hpv.Csv.writeRows force 0 rs) = .ok rs :=
   Hpv.Csv.read_write force rs hrs
 
+/-- **The csv layer of `from_csv` cannot fail.** Whatever a file holds, the reader's state machine - fed its physical lines the
+way the library's handles cut them - ends with a list of records; its one error state is unreachable. (A caller's own text
+stream cut at other places is C16's matter.) -/
+theorem csv_reader_total (text : Hpv.Csv.Str) : ∃ rs, Hpv.Csv.readAll text = .ok rs :=
+  Hpv.Csv.readAll_total text
+
 /-- **The written file, end to end**: title comment, metadata comment, then the physical lines of what the csv writer
 produced for a header row (whose first column name begins with a character other than `#`) and any data rows. The reader's
 header filter, `_parse_meta`, the csv reader and the `DictReader` layer together return the metadata and, for every data
